@@ -273,7 +273,7 @@ def inverse_stack(stack, z):
         elif t[0] == "log10":
             z = 10.0 ** z
         elif t[0] == "exp":
-            z = math.log(z)
+            z = math.log(z) if z > 0 else (-INF if z == 0 else float("nan"))
     return z
 
 
@@ -1163,7 +1163,7 @@ def oracle_dens(c, res):
         out.append(("exception", "mean/variance raised " + res["mean_exc"]))
     if "cdf_exc" in res:
         out.append(("exception", "cdf/value_for raised " + res["cdf_exc"]))
-    if "cdf_slope" in res:
+    if "cdf_integral" in res and "value_for_cdf" in res:     # (a cdf / value_for that raised is reported above as `exception`)
         # (the finite-difference slope of the cdf is reported but not checked: the integral identity below is exact)
         for ci, cx, x in zip(res["cdf_integral"], res["cdf"], res["points"]):
             if not close(unhex(ci), unhex(cx) - unhex(res["cdf_lo"]), 1e-6):
@@ -1398,6 +1398,264 @@ def check_env(c, res):
     return None
 
 
+ROUTE_MSGS = ["normal", "natural", "gamma", "beta", "prior"] + ["t:" + k for k in STACKS]
+
+
+def gen_route(ctx, count):
+    """class (2)/(3) of the hardening sweep: ONE answer by several routes.  value_for (the quantile function), cdf, ppf,
+    logpdf and pdf of a message called with a python float, np.float64, np.float32, an int, a 0-d array, a 1-element array,
+    a k-element array (vectorised call), a (k, n) batch and -- on array messages -- one value per element or one float
+    broadcast over the elements.  Every message shape of ROUTE_MSGS appears in every run (round robin, not by luck)."""
+    rng = ctx.rng
+    cases = []
+    for i in range(count):
+        shape = ROUTE_MSGS[i % len(ROUTE_MSGS)]
+        scalar = (i // len(ROUTE_MSGS)) % 2 == 0
+        n = 1 if scalar else rng.randint(1, 4)
+        if shape == "prior":
+            msg, scalar, n, fam = gen_prior_message(rng), True, 1, "normal"
+        elif shape.startswith("t:"):
+            fam = "normal"
+            msg = gen_message(rng, fam, scalar, n, ID0 + 9000, shape[2:], gen_stack(rng, shape[2:]))
+            msg["params"] = [[hx(dy(rng, -1, 1)) for _ in range(n)], [hx(rng.choice([0.25, 0.5, 0.75, 1.0])) for _ in range(n)]]
+        else:
+            fam = shape
+            msg = gen_message(rng, fam, scalar, n, ID0 + 9000)
+        k = rng.randint(2, 4)
+        U, X = [], []
+        for r in range(k):
+            # unit values: dyadic (exact in binary32 too), both halves of (0, 1); the first case rows carry the end points
+            urow = [rng.randint(3, 61) / 64.0 for _ in range(n)]
+            if r == 0 and rng.random() < 0.25:
+                urow = [float(rng.choice([0, 1])) for _ in range(n)]
+            if r == 1:
+                urow = [u if u != 0.5 else 0.25 for u in urow]
+            U.append([hx(u) for u in urow])
+            xrow = []
+            for j in range(n):
+                if msg.get("ctor") or msg.get("t"):
+                    xrow.append(None)          # filled below from the unit value (a point inside the support)
+                elif fam in ("normal", "natural"):
+                    xrow.append(float(rng.randint(-6, 6)) if rng.random() < 0.4 else dy(rng, -6, 6))
+                elif fam == "gamma":
+                    xrow.append(float(rng.randint(1, 6)) if rng.random() < 0.4 else dy(rng, 0.125, 6))
+                else:
+                    xrow.append(rng.randint(1, 15) / 16.0)
+            X.append(xrow)
+        kexp = rng.choice([0.0, 1.0, 2.0, 3.0, -1.0, 0.5, 0.25, 1.5, -0.5])
+        sfac = rng.choice([1.0, 2.0, 4.0, 0.5, 3.0, 0.75])
+        pfam = ["normal", "natural", "gamma", "beta"][i % 4]
+        pn = 1 if (i // 4) % 2 == 0 else rng.randint(1, 3)
+        if pfam == "normal":
+            pint = [[float(rng.randint(-4, 4)) for _ in range(pn)], [float(rng.randint(1, 3)) for _ in range(pn)]]
+        elif pfam == "natural":
+            pint = [[float(rng.randint(-4, 4)) for _ in range(pn)], [-float(rng.randint(1, 3)) for _ in range(pn)]]
+        else:
+            pint = [[float(rng.randint(1, 5)) for _ in range(pn)], [float(rng.randint(1, 5)) for _ in range(pn)]]
+        px = rng.randint(1, 15) / 16.0
+        cases.append({"kind": "route", "shape": shape, "fam": fam, "scalar": scalar, "n": n, "msg": msg, "k": hx(kexp), "s": hx(sfac),
+                      "pfam": pfam, "pint": [[hx(v) for v in col] for col in pint], "px": hx(px),
+                      "u": U, "x": X, "xq": [[rng.randint(3, 61) / 64.0 for _ in range(n)] for _ in range(k)]})
+    return cases
+
+
+def route_points(c):
+    """evaluation points of a transformed / prior-built message: quantiles of the same message at dyadic levels computed HERE
+    (standard library only), rounded to binary32 so that every route receives exactly the same number"""
+    import struct
+    from statistics import NormalDist
+    msg = c["msg"]
+    X = []
+    for i, row in enumerate(c["x"]):
+        out = []
+        for j, x in enumerate(row):
+            if x is None:
+                z = NormalDist().inv_cdf(c["xq"][i][j])
+                if msg.get("ctor") == "uniform_prior":
+                    a, b = unhex(msg["a"]), unhex(msg["b"])
+                    x = a + (b - a) * c["xq"][i][j]
+                elif msg.get("ctor") == "log_uniform_prior":
+                    a, b = unhex(msg["a"]), unhex(msg["b"])
+                    x = a * (b / a) ** c["xq"][i][j]
+                elif msg.get("ctor") == "log_gaussian_prior":
+                    x = math.exp(unhex(msg["a"]) + unhex(msg["b"]) * z)
+                elif msg.get("ctor") == "gaussian_prior":
+                    x = unhex(msg["a"]) + unhex(msg["b"]) * z
+                else:
+                    x = inverse_stack(msg["t"]["stack"], unhex(msg["params"][0][j]) + unhex(msg["params"][1][j]) * z)
+                x = struct.unpack("f", struct.pack("f", x))[0]
+            out.append(hx(x))
+        X.append(out)
+    return X
+
+
+def same_num(a, b, tol):
+    if math.isnan(a) or math.isnan(b):
+        return math.isnan(a) and math.isnan(b)
+    if math.isinf(a) or math.isinf(b):
+        return a == b
+    return abs(a - b) <= tol
+
+
+def oracle_route(c, res):
+    out = []
+    d = res["desc"]
+    transformed = d.get("t") is not None
+    bd = base_of(d)
+    fam, elems = bd["fam"], bd["elems"]
+    stack = d["t"]["stack"] if transformed else []
+    ref = res["ref"]
+    U = [[unhex(h) for h in r] for r in c["u"]]
+    X = [[unhex(h) for h in r] for r in c["x"]]
+    k, n = len(U), len(elems)
+
+    def scale(f, i, j, r, bc=False):
+        if f in ("logpdf", "pdf") and not transformed:
+            s = lp_elem_scale(fam, elems[j], X[i][0 if bc else j])
+            return max(1.0, abs(r), s) if f == "logpdf" else max(1.0, abs(r)) * max(1.0, s)
+        return max(1.0, abs(r)) if math.isfinite(r) else 1.0
+
+    for f in res["funcs"]:
+        if isinstance(ref[f], str):
+            out.append(("route-ref-exception:" + f, "scalar route: %s(float) on a scalar message raised %s" % (f, ref[f])))
+    # (a) the scalar route against the libraries: quantile and cdf of the base family through the stack
+    if "lib_q" in res and not isinstance(ref.get("value_for"), str):
+        for i in range(k):
+            for j in range(n):
+                want = inverse_stack(stack, unhex(res["lib_q"][i][j]))
+                got = unhex(ref["value_for"][i][j])
+                if not same_num(got, want, 1e-9 * max(1.0, abs(want))):
+                    out.append(("quantile-library", "value_for(%r) = %r on the scalar route, library quantile %r" % (U[i][j], got, want)))
+                if not isinstance(ref.get("cdf"), str):
+                    gc, wc = unhex(ref["cdf"][i][j]), unhex(res["lib_cdf"][i][j])
+                    if not same_num(gc, wc, 1e-9):
+                        out.append(("cdf-library", "cdf(%r) = %r on the scalar route, library cdf %r" % (X[i][j], gc, wc)))
+    # (b) every route agrees elementwise with the scalar route, and is the inverse of the cdf ON THAT ROUTE
+    for name, rr in sorted(res["routes"].items()):
+        f32 = name.endswith("32")
+        rtol = 2e-5 if f32 else 1e-12
+        reference = res.get("ref_bcast", ref) if name == "bcast" else ref
+        for f in res["funcs"]:
+            got = rr.get(f)
+            want = reference.get(f)
+            if isinstance(want, str) or got is None:
+                continue
+            if isinstance(got, str):
+                out.append(("route-%s:%s@%s" % ("shape" if got.startswith("shape") else "exception", f, name),
+                            "%s through route %s: %s (scalar route answers)" % (f, name, got)))
+                continue
+            bad = None
+            for i in range(k):
+                for j in range(n):
+                    if got[i][j] is None:
+                        continue
+                    g, w = unhex(got[i][j]), unhex(want[i][j])
+                    if not same_num(g, w, rtol * scale(f, i, j, w, name == "bcast")):
+                        bad = bad or (i, j, g, w)
+                    if f == "cdf_vf":
+                        u = U[i][0 if name == "bcast" else j]
+                        if not same_num(g, u, 2e-5 if f32 else 1e-9):
+                            out.append(("inverse-pair@" + name, "cdf(value_for(u)) = %r for u = %r on route %s (message element %d)" % (g, u, name, j)))
+            if bad:
+                pt = (U if f in ("value_for", "cdf_vf", "ppf") else X)[bad[0]][0 if name == "bcast" else bad[1]]
+                out.append(("route:%s@%s" % (f, name), "%s at %r is %r through route %s but %r on the scalar route (row %d, element %d)"
+                            % (f, pt, bad[2], name, bad[3], bad[0], bad[1])))
+        # a quantile function is increasing: vectorised values ordered like the unit values
+        vf = rr.get("value_for")
+        if isinstance(vf, list) and name != "bcast":
+            for j in range(n):
+                col = sorted((U[i][j], unhex(vf[i][j])) for i in range(k) if vf[i][j] is not None)
+                for (u0, v0), (u1, v1) in zip(col, col[1:]):
+                    if u0 < u1 and not v0 < v1 and not (math.isnan(v0) or math.isnan(v1)):
+                        out.append(("quantile-monotone@" + name, "value_for(%r) = %r >= value_for(%r) = %r through route %s" % (u0, v0, u1, v1, name)))
+    # ppf (NormalMessage only) is the same function as value_for
+    if "ppf" in res["funcs"] and not isinstance(ref.get("ppf"), str) and not isinstance(ref.get("value_for"), str):
+        for i in range(k):
+            for j in range(n):
+                a, b = unhex(ref["ppf"][i][j]), unhex(ref["value_for"][i][j])
+                if not same_num(a, b, 1e-9 * max(1.0, abs(b))):
+                    out.append(("ppf-value_for", "ppf(%r) = %r but value_for = %r" % (U[i][j], a, b)))
+    # (c) ** real, * real, real * , / real: one real number in every representation gives one message
+    for op, reps in sorted(res.get("scal", {}).items()):
+        want = reps.get("float")
+        for rn, got in sorted(reps.items()):
+            if rn == "float" or got == want:
+                continue
+            if isinstance(want, str) or isinstance(got, str):
+                out.append(("scalar-rep-exception:%s@%s" % (op, rn), "%s with the real as %s: %s; as python float: %s" % (op, rn, str(got)[:160], str(want)[:160])))
+                continue
+            tol = 1e-6 if rn == "f32" else 0.0
+            okv = all(got[q] == want[q] for q in ("wrap", "cls", "id", "lo", "hi", "shape")) \
+                and len(got["elems"]) == len(want["elems"]) and len(got["log_norm"]) == len(want["log_norm"]) \
+                and all(same_num(unhex(a), unhex(b), tol * max(1.0, abs(unhex(b)))) for ea, eb in zip(got["elems"], want["elems"]) for a, b in zip(ea, eb)) \
+                and all(same_num(unhex(a), unhex(b), tol * max(1.0, abs(unhex(b)))) for a, b in zip(got["log_norm"], want["log_norm"]))
+            if not okv:
+                out.append(("scalar-rep:%s@%s" % (op, rn), "%s with the real %r as %s gives %s, as python float %s" % (
+                    op, unhex(c.get("k", hx(2.0)) if op == "pow" else c.get("s", hx(2.0))), rn, json.dumps(got)[:300], json.dumps(want)[:300])))
+    # (d) the parameters of a base message as int / np.int64 / np.float32 / 0-d array / integer arrays: same message
+    pr = res.get("prep", {})
+    want = pr.get("float")
+    for rn, got in sorted(pr.items()):
+        if rn == "float":
+            continue
+        if isinstance(want, str) or isinstance(got, str):
+            if got != want:
+                out.append(("param-rep-exception@" + rn, "%s(%s parameters) raised %s; python floats: %s" % (c["pfam"], rn, str(got)[:150], str(want)[:100])))
+            continue
+        tol = 1e-5 if rn == "f32" else 1e-13
+        for q in sorted(want):
+            a, b = got.get(q), want[q]
+            if isinstance(a, str) or isinstance(b, str):
+                if a != b:
+                    out.append(("param-rep-exception:%s@%s" % (q, rn), "%s of %s built from %s parameters: %s; from floats: %s" % (q, c["pfam"], rn, str(a)[:150], str(b)[:100])))
+            elif len(a) != len(b) or not all(same_num(unhex(u_), unhex(v_), tol * max(1.0, abs(unhex(v_)))) for u_, v_ in zip(a, b)):
+                out.append(("param-rep:%s@%s" % (q, rn), "%s of %s%r built from %s parameters is %r, from python floats %r" % (
+                    q, c["pfam"], [[unhex(h) for h in col] for col in c["pint"]], rn, [unhex(h) for h in a], [unhex(h) for h in b])))
+    if isinstance(want, dict) and want.get("fromnat_i64") != want.get("fromnat"):
+        out.append(("fromnat-rep@i64", "from_natural_parameters(integer array) gives %s, from the same values as floats %s" % (
+            str(want.get("fromnat_i64"))[:200], str(want.get("fromnat"))[:200])))
+    if isinstance(want, dict) and want.get("fromnat_direct_i64") != want.get("fromnat_direct"):
+        out.append(("fromnat-direct-rep@i64", "from_natural_parameters(integer array) gives %s, from the same values as floats %s" % (
+            str(want.get("fromnat_direct_i64"))[:200], str(want.get("fromnat_direct"))[:200])))
+    # (e) sample(n): n as int / np.int64 / 0-d array gives n draws of the message's shape, None one draw; all inside the support
+    for rn, got in sorted(res.get("sample", {}).items()):
+        nn = {"none": None, "int1": 1, "int3": 3, "i64": 3, "0d": 3}[rn]
+        if isinstance(got, str):
+            out.append(("sample-exception@" + rn, "sample(%s) raised %s" % (rn, got)))
+            continue
+        exp_shape = got["msg_shape"] if nn is None else [nn] + got["msg_shape"]
+        if got["shape"] != exp_shape:
+            out.append(("sample-shape@" + rn, "sample(%s) has shape %r, expected %r" % (rn, got["shape"], exp_shape)))
+        if not got["inside"]:
+            out.append(("sample-support@" + rn, "sample(%s) leaves the support" % rn))
+    seen, uniq = set(), []
+    for a_, m_ in out:           # one report per kind of disagreement (the first route that shows it is named in the aspect)
+        if a_.split("@")[0] not in seen:
+            seen.add(a_.split("@")[0])
+            uniq.append((a_, m_))
+    return uniq
+
+
+QUANT_ROUTES = ["float", "f64", "0d", "1el", "vec", "col", "float-again", "row", "batch", "row-again"]
+
+
+def coq_route(c, res):
+    """CQuant: the quantiles of a base NormalMessage observed through every binary64 route, against the model's value_for"""
+    if "erfinv_tab" not in res or res["desc"].get("t") is not None:
+        return None
+    obs = []
+    for name in QUANT_ROUTES:
+        v = res["routes"].get(name, {}).get("value_for")
+        if isinstance(v, list) and all(x is not None for r in v for x in r):
+            obs.append(clist([clist([cf(h) for h in r]) for r in v]))
+    if not obs:
+        return None
+    tab = clist([cpair(cf(k), cf(v)) for k, v in res["erfinv_tab"]])
+    es = clist([clist([cf(x) for x in e]) for e in res["desc"]["elems"]])
+    us = clist([clist([cf(h) for h in r]) for r in c["u"]])
+    return "CQuant %s %s %s %s" % (tab, es, us, clist(obs))
+
+
 def nontrivial(c):
     if c["kind"] == "alg":
         return c["law"] != "pow1" or c["fam"] != "fixed"
@@ -1421,7 +1679,15 @@ def run(ctx):
         "bit for bit with the model; (lpdf) logpdf / pdf of scalar and array messages at scalar, array and batched points against scipy.stats and, "
         "bit for bit, against the model's natural_logpdf, factor/_transform_det of transformed messages at array points; (mixed) array (op) "
         "scalar messages and messages with parameters of different shapes; (hist) query -> m[i] = value -> query [-> ...] histories on array messages, every query compared "
-        "bit for bit with a fresh message built from the current parameters and with the model. A case is non-trivial unless it is the a**1 law on a fixed message or a projection "
+        "bit for bit with a fresh message built from the current parameters and with the model; (route) ONE ANSWER BY EVERY ROUTE: value_for (quantile), cdf, cdf(value_for(u)), ppf, "
+        "logpdf, pdf of every message shape (normal, natural, gamma, beta, real priors, each of the 7 transform stacks; scalar and array; round robin, so every shape in every run) "
+        "called with a python float, np.float64, np.float32, int, 0-d array, 1-element array, k-element array (vectorised), (k,1) column, (k,n) batch, one value per element of an "
+        "array message, one float broadcast over an array message, and again with a float after the array calls -- each compared elementwise with the scalar route (scalar message "
+        "per element, python float per call), with cdf(value_for(u)) == u ON THAT ROUTE, with monotonicity of the vectorised quantiles and with scipy.stats quantiles / cdf of the "
+        "base family pushed through an independent inverse of the stack; and m ** k, m * s, s * m, m / s with the real as float, np.float64, np.float32, 0-d array, int, np.int64; the PARAMETERS of a base message as int, np.int64, "
+        "np.float32, 0-d (int) arrays, int64/int32/float32 arrays or mixed against the float-built message on 14 queries, from_natural_parameters of an integer array against the "
+        "float array, sample(n) for n None / int / np.int64 / 0-d (shape and support only); the (hist) queries include cdf, value_for (array and float units), ppf and cdf(value_for); "
+        "the quantiles of base NormalMessages observed through every binary64 route are also compared bit for bit with the model's value_for (CQuant, erfinv as oracle table). A case is non-trivial unless it is the a**1 law on a fixed message or a projection "
         "of fewer than 3 samples; distinct = distinct abstract input")
     ctx.trusted = [
         "Coq 8.16.1 kernel incl. vm_compute; primitive floats are kernel primitives; Reals axioms of the standard library",
@@ -1437,6 +1703,9 @@ def run(ctx):
         "algebraic theorems are over exact rationals (gamma, beta, natural-normal, fixed; any number of array elements) and over "
         "the reals (normal: mean/sigma <-> natural parameters with sqrt); binary64 results are tied to the same definitions by "
         "bit-exact correspondence only",
+        "the quantile/cdf inverse pair is proved over the reals for every branch of value_for whose erfinv argument is 2u-1 and for every transform stack, under the "
+        "hypotheses erf(erfinv y) = y on (-1,1) and ndtri(Phi y) = y on the library functions; which branch runs for which argument type, and that both branches of the code "
+        "carry that argument, is tied to the code by the route cases (oracle), not by a translator",
         "normalisation of the densities, CDF/mean/variance consistency and the Newton inverses of gamma/beta moment matching are "
         "checked numerically only (quadrature at 1e-6; logpdf pointwise against scipy.stats at 1e-10 of the cancelling terms; "
         "invpsilog against a bracketing root finder at a condition-aware 1e-11); they are not proved. C17_gamma_project assumes "
@@ -1453,8 +1722,13 @@ def run(ctx):
         pass
     built = ctx.build()
     n_alg, n_proj, n_dens, n_det, n_hist, n_lpdf, n_mix = (400, 150, 50, 70, 110, 160, 40) if not thorough else (2600, 900, 320, 500, 800, 1200, 200)
+    n_route = 72 if not thorough else 480
     cases = gen_alg(ctx, n_alg) + gen_proj(ctx, n_proj) + gen_dens(ctx, n_dens) + gen_det(ctx, n_det) + gen_hist(ctx, n_hist) \
         + gen_lpdf(ctx, n_lpdf) + gen_mixed(ctx, n_mix) + gen_mixedparam(ctx, n_mix)
+    route_cases = gen_route(ctx, n_route)
+    for rc in route_cases:
+        rc["x"] = route_points(rc)
+    cases += route_cases
     corpus_dir = os.path.join(common.VERIF, "corpus", "C17")
     regression = {}            # id(case) -> file name, for the pinned cases of findings that have been repaired
     if os.path.isdir(corpus_dir):
@@ -1518,6 +1792,23 @@ def run(ctx):
                 coq_idx.append(i)
         elif kind == "mixedparam":
             fails += oracle_mixedparam(c, res)
+        elif kind == "route":
+            ctx.hist("route-message", c["shape"] + ("/scalar" if c["scalar"] else "/array"))
+            for rn_, rr_ in res.get("routes", {}).items():
+                for f_, v_ in rr_.items():
+                    if isinstance(v_, list):
+                        ctx.hist("route", f_ + "@" + rn_)
+            for op_, reps_ in res.get("scal", {}).items():
+                for rn_ in reps_:
+                    ctx.hist("route", op_ + "@" + rn_)
+            for rn_ in res.get("prep", {}):
+                ctx.hist("route", "params:%s@%s" % (c["pfam"], rn_))
+            fails += oracle_route(c, res)
+            t = coq_route(c, res)
+            if t:
+                coq_terms.append(t)
+                coq_idx.append(i)
+                ctx.hist("route-coq", "CQuant/" + ("scalar" if c["scalar"] else "array"))
         elif kind == "hist":
             fails += oracle_hist(c, res)
             t = coq_hist(c, res)
@@ -1583,9 +1874,14 @@ MANIFEST = {
             "matching, natural_logpdf, in-place item assignment) instantiated with Q (gamma, beta, natural-normal, fixed, any array length) and R (normal with sqrt; linear-shift "
             "change of variables; log-determinant of a transform stack by the chain rule), with refutation witnesses for the defects of "
             "the pinned code, plus bit-exact vm_compute correspondence of the same definitions (binary64 instance, libm/scipy values "
-            "as oracle tables) with the running code on generated environments/expressions/projections and a direct property oracle",
+            "as oracle tables) with the running code on generated environments/expressions/projections and a direct property oracle; "
+            "quantile/cdf inverse pair over R for every branch (scalar / ndarray fallback) of value_for, vectorised calls and transform stacks (Quantile.v), "
+            "with the code's routes (argument representations) compared by the oracle",
     "note": "Proved: group/module laws on natural parameters, ordinary<->natural round trips, moment matching of the normal family, "
             "weight normalisation of project, Jacobian bookkeeping. NOT proved (numerical oracle only): normalisation integrals, "
-            "CDF/mean/variance consistency, Newton inverses of gamma/beta moment matching. Known findings are printed as KNOWN-FINDING.",
+            "CDF/mean/variance consistency, Newton inverses of gamma/beta moment matching. Known findings are printed as KNOWN-FINDING. "
+            "Proved over R under library hypotheses (erf o erfinv = id on (-1,1), ndtri o Phi = id): cdf(value_for(u)) = u for both branches of value_for, "
+            "vectorised calls and every shift/log/log10/exp/phi stack; a branch is sound iff its erfinv argument is 2u-1 (mirrored fallback refuted). Python lists as "
+            "arguments / parameters and ndarray * message are outside the quantifier (not reals / arrays of the API) and are not exercised; sample() is checked for shape and support only.",
     "technique": "machine-checked proof in Coq (generic model, Q/R/binary64 instances) + vm_compute correspondence + numerical oracle",
 }
